@@ -51,11 +51,14 @@ func NewUniverse() *Universe {
 	u.DeclFun("str.at", "(Str Int) Int")
 	u.DeclFun("str.cat", "(Str Str) Str")
 	u.DeclFun("str.sub", "(Str Int Int) Str")
+	u.DeclFun("ptag", "(Int) Int")
+	u.DeclFun("proot", "(Int) Int")
 	u.axioms = append(u.axioms,
 		"(forall ((s Str)) (! (>= (str.len s) 0) :pattern ((str.len s))))",
 		"(forall ((a Str) (b Str)) (! (= (str.len (str.cat a b)) (+ (str.len a) (str.len b))) :pattern ((str.cat a b))))",
 	)
-	u.axiomName = append(u.axiomName, "str.len>=0", "str.cat.len")
+	u.axioms = append(u.axioms, "(= (proot 0) 0)")
+	u.axiomName = append(u.axiomName, "str.len>=0", "str.cat.len", "proot(nil)=nil")
 	return u
 }
 
